@@ -37,6 +37,11 @@ pub fn pttl_to_restore_expire_time(pttl: Vec<u8>) -> Vec<u8> {
         // Reuse this vector
         expire_time.clear();
         expire_time.extend_from_slice(RESTORE_NO_EXPIRE)
+    } else if btoi::btoi::<i64>(&expire_time) == Ok(0) {
+        // PTTL answers 0 for a key with less than a millisecond left,
+        // but RESTORE takes 0 as "no expire". Keep the key volatile.
+        expire_time.clear();
+        expire_time.extend_from_slice(b"1")
     }
     expire_time
 }
